@@ -64,10 +64,7 @@ Theorem C05_histories : forall (utxos : list (N * value)) (cfg : config) (l : li
   utxos_wf utxos -> Forall op_wf (map fst l) ->
   run_ops utxos l (new_state cfg) = (rs, s, Some body) ->
   ledger_balanced (c_pool_deposit cfg) (c_key_deposit cfg) body.
-Proof.
-  intros utxos cfg l rs s body WU Wl H.
-  exact (scenarios_balanced utxos WU cfg l (new_state cfg) rs s body (new_state_wf cfg) Wl H).
-Qed.
+Proof. exact histories_balanced. Qed.
 Print Assumptions C05_histories.
 
 (* inside a history: every balancing operation that reports success leaves a balanced builder *)
@@ -75,11 +72,7 @@ Theorem C05_history_change : forall (utxos : list (N * value)) (cfg : config) (x
   utxos_wf utxos -> WF cfg s -> op_wf x ->
   fst (fst (run_op utxos x s o)) = RBool v ->
   ledger_balanced (c_pool_deposit cfg) (c_key_deposit cfg) (body_of (snd (fst (run_op utxos x s o)))).
-Proof.
-  intros utxos cfg x s o v WU W Wx H.
-  destruct (run_op_spec utxos WU cfg x s o W Wx) as [[_ C] [_ B]].
-  specialize (B v H). apply balanced_ledger in B. unfold params_balanced in B. rewrite C in B. exact B.
-Qed.
+Proof. exact history_change. Qed.
 Print Assumptions C05_history_change.
 
 (* the rule does not depend on the order of inputs, outputs, certificates, withdrawals, proposals *)
